@@ -159,6 +159,9 @@ package s3mem
 //@ pred dbInv(db) = db != nil && db.buckets != nil && db.timeSource != nil && db.versionGenerator != nil &&
 //@     allstr(n, imp(has(db.buckets, n) && db.buckets[n] != nil, allocated(db.buckets[n]) && db.buckets[n].name == n &&
 //@         bucketInv(db.buckets[n]) && idsIssued(db.buckets[n])))
+// read-only operations need the per-object part of the invariant only
+//@ pred dbInvRO(db) = db != nil && db.buckets != nil && db.timeSource != nil &&
+//@     allstr(n, imp(has(db.buckets, n) && db.buckets[n] != nil, allocated(db.buckets[n]) && db.buckets[n].name == n && bucketInvA(db.buckets[n])))
 //@ pred bkt(db, n) = db.buckets[n]
 //@ pred hasBucket(db, n) = has(db.buckets, n) && db.buckets[n] != nil
 
@@ -326,4 +329,111 @@ package s3mem
 //@ props C05 C09
 //@ requires          inv:    dbInv(db) && db.lock == 0
 //@ ensures [C05]     nobucket: imp(!hasBucket(db, bucketName) && ret0 != nil, true)
+//@ ensures           lock:   db.lock == 0
+
+// ---- listing (C03, C04) -----------------------------------------------------------------
+// Indices 0..N-1 run over the bucket's keys in ascending order (sl_key of the index).
+//   ks(i)  the i-th key, ob(i) its object
+//   inr(i) the key lies after the marker (every key when there is no marker)
+// A listing that has looked at the first V keys is sound and complete for them:
+// Contents are exactly the live, matching, non-grouped keys among them, in order,
+// CommonPrefixes the distinct groups.
+
+//@ pred ks(l, i) = dyn(sl_key(l)[i], string)
+//@ pred ob(l, i) = dyn(sl_val(l)[sl_key(l)[i]], *bucketObject)
+//@ pred inr(l, i, m) = m == "" || ks(l, i) > m
+//@ pred listed(l, i, m, pf) = inr(l, i, m) && gofakes3.mOK(pf, ks(l, i)) && !ob(l, i).data.deleteMarker
+//@ pred soundC(r, b, m, pf) = all(j, 0, len(r.Contents), allocated(r.Contents[j]) && hasObj(b, r.Contents[j].Key) &&
+//@     (m == "" || r.Contents[j].Key > m) && gofakes3.mOK(pf, r.Contents[j].Key) && !gofakes3.mCommon(pf, r.Contents[j].Key) &&
+//@     !objAt(b, r.Contents[j].Key).data.deleteMarker && r.Contents[j].Size == len(objAt(b, r.Contents[j].Key).data.body))
+//@ pred belowC(r, l, v) = imp(0 < v && v <= sl_len(l), all(j, 0, len(r.Contents), r.Contents[j].Key <= ks(l, v - 1))) && imp(v <= 0, len(r.Contents) == 0)
+//@ pred soundP(r, l, v, m, pf) = all(c, 0, len(r.CommonPrefixes), ex(i, 0, v, r.CommonPrefixes[c].Prefix == gofakes3.mPart(pf, ks(l, i)) &&
+//@     listed(l, i, m, pf) && gofakes3.mCommon(pf, ks(l, i))))
+//@ pred inP(r, s) = r.prefixes != nil && has(r.prefixes, s) && r.prefixes[s]
+//@ pred complete(r, l, v, m, pf) = all(i, 0, v, imp(listed(l, i, m, pf),
+//@     ite(gofakes3.mCommon(pf, ks(l, i)), inP(r, gofakes3.mPart(pf, ks(l, i))),
+//@         ex(j, 0, len(r.Contents), r.Contents[j].Key == ks(l, i)))))
+//@ pred ascC(r) = all(j, 0, len(r.Contents) - 1, r.Contents[j].Key < r.Contents[j+1].Key)
+//@ pred prefixSet(r) = imp(r.prefixes == nil, len(r.CommonPrefixes) == 0) &&
+//@     imp(r.prefixes != nil, allstr(s, iff(has(r.prefixes, s) && r.prefixes[s], ex(i, 0, len(r.CommonPrefixes), r.CommonPrefixes[i].Prefix == s))))
+
+//@ func (*Backend).ListBucket
+//@ props C03 C04 C10 C09
+//@ let L = bkt(db, name).objects
+//@ let PF = *ite(prefix == nil, emptyPrefix, prefix)
+//@ let IT = iter.inner
+//@ let NX = ite(iter.didSeek, ite(iter.seekWasOK, it_idx(iter.inner), sl_len(storedBucket.objects)), it_idx(iter.inner) + 1)
+//@ requires          inv:    dbInvRO(db) && db.lock == 0
+//@ loop 1 invariant  shape:  storedBucket != nil && storedBucket == bkt(db, name) && response != nil && iter != nil && iter.inner != nil &&
+//@                             it_list(iter.inner) == storedBucket.objects && -1 <= it_idx(iter.inner) && 0 <= NX && NX <= sl_len(storedBucket.objects) &&
+//@                             imp(iter.didSeek && iter.seekWasOK, 0 <= it_idx(iter.inner) && it_idx(iter.inner) < sl_len(storedBucket.objects)) &&
+//@                             !response.IsTruncated && response.NextMarker == "" && prefix != nil && db.lock == 1
+//@ loop 1 invariant  own:    fresh(response) && (response.prefixes == nil || fresh(response.prefixes))
+//@ loop 1 invariant  same:   unchanged(db) && db.buckets == old(db.buckets)
+//@ loop 1 invariant  objs:   bucketInvA(storedBucket)
+//@ loop 1 invariant  count:  0 <= cnt && len(response.Contents) + len(response.CommonPrefixes) <= cnt && imp(page.MaxKeys > 0, cnt < page.MaxKeys) && cnt <= NX
+//@ loop 1 invariant  pset:   prefixSet(response)
+//@ loop 1 invariant  after:  all(i, NX, sl_len(storedBucket.objects), inr(storedBucket.objects, i, page.Marker))
+//@ loop 1 invariant  before: all(i, 0, NX, imp(!inr(storedBucket.objects, i, page.Marker), page.Marker != "" && ks(storedBucket.objects, i) <= page.Marker))
+//@ loop 1 invariant  soundC: soundC(response, storedBucket, page.Marker, *prefix)
+//@ loop 1 invariant  below:  belowC(response, storedBucket.objects, NX)
+//@ loop 1 invariant  soundP: soundP(response, storedBucket.objects, NX, page.Marker, *prefix)
+//@ loop 1 invariant  compl:  complete(response, storedBucket.objects, NX, page.Marker, *prefix)
+//@ loop 1 invariant  asc:    ascC(response)
+//@ loop 1 invariant  last:   lastMatchedPart == "" || inP(response, lastMatchedPart)
+//@ loop 1 hint       pos:    it_idx(iter.inner) == old(NX) && 0 <= it_idx(iter.inner) && it_idx(iter.inner) < sl_len(storedBucket.objects)
+//@ loop 1 hint       cur:    item != nil && item.data != nil && item.data.name == ks(storedBucket.objects, it_idx(iter.inner)) && item == ob(storedBucket.objects, it_idx(iter.inner))
+//@ loop 1 hint       grow:   imp(len(response.Contents) != old(len(response.Contents)), len(response.Contents) == old(len(response.Contents)) + 1 &&
+//@                             response.Contents[len(response.Contents)-1].Key == ks(storedBucket.objects, it_idx(iter.inner)) &&
+//@                             all(j, 0, old(len(response.Contents)), response.Contents[j] == old(response.Contents[j]) && response.Contents[j].Key == old(response.Contents[j].Key)))
+//@ loop 1 hint       keepP:  len(response.CommonPrefixes) >= old(len(response.CommonPrefixes)) && all(c, 0, old(len(response.CommonPrefixes)), response.CommonPrefixes[c] == old(response.CommonPrefixes[c]))
+//@ loop 1 hint       curP:   imp(listed(storedBucket.objects, it_idx(iter.inner), page.Marker, *prefix) && gofakes3.mCommon(*prefix, ks(storedBucket.objects, it_idx(iter.inner))),
+//@                             inP(response, gofakes3.mPart(*prefix, ks(storedBucket.objects, it_idx(iter.inner)))))
+//@ loop 1 hint       curC:   imp(listed(storedBucket.objects, it_idx(iter.inner), page.Marker, *prefix) && !gofakes3.mCommon(*prefix, ks(storedBucket.objects, it_idx(iter.inner))),
+//@                             len(response.Contents) > 0 && response.Contents[len(response.Contents)-1].Key == ks(storedBucket.objects, it_idx(iter.inner)))
+//@ loop 1 hint       keepS:  allstr(s, imp(old(inP(response, s)), inP(response, s)))
+//@ loop 1 hint       prev:   imp(old(NX) > 0, ks(storedBucket.objects, old(NX) - 1) < ks(storedBucket.objects, old(NX)))
+//@ loop 1 hint       keepC:  all(i, 0, old(NX), imp(listed(storedBucket.objects, i, page.Marker, *prefix) && !gofakes3.mCommon(*prefix, ks(storedBucket.objects, i)),
+//@                             ex(j, 0, len(response.Contents), response.Contents[j].Key == ks(storedBucket.objects, i))))
+//@ loop 1 hint       keepQ:  all(i, 0, old(NX), imp(listed(storedBucket.objects, i, page.Marker, *prefix) && gofakes3.mCommon(*prefix, ks(storedBucket.objects, i)),
+//@                             inP(response, gofakes3.mPart(*prefix, ks(storedBucket.objects, i)))))
+//@ loop 1 hint       done:   complete(response, storedBucket.objects, it_idx(iter.inner) + 1, page.Marker, *prefix)
+//@ uses keepC: inv.shape inv.compl -hints hint.grow hint.pos
+//@ uses keepQ: inv.shape inv.compl -hints hint.keepS hint.pos
+//@ uses done: inv.shape -hints hint.keepC hint.keepQ hint.curP hint.curC hint.pos
+//@ uses soundC: inv.objs inv.shape inv.after inv.count -hints hint.pos hint.cur hint.grow
+//@ uses grow: inv.shape inv.soundC
+//@ uses soundP: inv.objs inv.shape inv.after inv.count inv.pset -hints hint.pos hint.cur hint.keepP
+//@ uses compl: inv.shape -hints hint.done hint.pos
+//@ uses curP: inv.objs inv.shape inv.after inv.pset inv.last
+//@ uses curC: inv.objs inv.shape inv.after
+//@ uses keepP: inv.shape inv.pset
+//@ uses last: inv.shape inv.pset
+//@ uses keepS: inv.shape inv.pset
+//@ uses below: inv.objs inv.shape inv.after inv.count
+//@ uses asc: inv.objs inv.shape inv.after inv.count inv.below
+//@ uses skip: inv.objs inv.shape
+//@ uses pset: inv.objs inv.shape
+//@ uses count: inv.objs inv.shape
+//@ uses objs: inv.shape
+//@ uses own: inv.shape -hints
+//@ uses same: inv.shape inv.own -hints
+//@ ensures [C02]     nobucket: imp(!hasBucket(db, name), ret0 == nil && errcode(ret1) == gofakes3.ErrNoSuchBucket)
+//@ ensures [C03]     ok:     imp(hasBucket(db, name), ret1 == nil && ret0 != nil)
+//@ ensures [C04]     limit:  imp(ret1 == nil && page.MaxKeys > 0, len(ret0.Contents) + len(ret0.CommonPrefixes) <= page.MaxKeys)
+//@ ensures [C03]     soundC: imp(ret1 == nil, soundC(ret0, bkt(db, name), page.Marker, PF))
+//@ ensures [C03]     soundP: imp(ret1 == nil, soundP(ret0, L, sl_len(L), page.Marker, PF))
+//@ ensures [C03]     asc:    imp(ret1 == nil, ascC(ret0))
+//@ ensures [C03,C04] all:    imp(ret1 == nil && !ret0.IsTruncated, complete(ret0, L, sl_len(L), page.Marker, PF))
+//@ rethint           trunc:  imp(ret1 == nil && ret0 != nil && ret0.IsTruncated, storedBucket != nil && iter != nil && 1 <= it_idx(iter.inner) &&
+//@                             it_idx(iter.inner) - 1 < sl_len(storedBucket.objects) && ret0.NextMarker == ks(storedBucket.objects, it_idx(iter.inner) - 1) &&
+//@                             inr(storedBucket.objects, it_idx(iter.inner) - 1, page.Marker))
+//@ rethint           truncC: imp(ret1 == nil && ret0 != nil && ret0.IsTruncated, complete(ret0, storedBucket.objects, it_idx(iter.inner), page.Marker, *prefix))
+//@ rethint           truncB: imp(ret1 == nil && ret0 != nil && ret0.IsTruncated, all(j, 0, len(ret0.Contents), ret0.Contents[j].Key <= ret0.NextMarker))
+//@ uses truncC: inv.shape -hints hint.done hint.pos
+//@ uses truncB: inv.objs inv.shape inv.after inv.count inv.below
+//@ ensures [C04]     next:   imp(ret1 == nil && ret0.IsTruncated, page.MaxKeys > 0 &&
+//@                             ex(v, 0, sl_len(L), ret0.NextMarker == ks(L, v) && inr(L, v, page.Marker) && complete(ret0, L, v + 1, page.Marker, PF) &&
+//@                               all(j, 0, len(ret0.Contents), ret0.Contents[j].Key <= ret0.NextMarker)))
+//@ ensures [C10]     same:   unchanged()
 //@ ensures           lock:   db.lock == 0
